@@ -402,3 +402,22 @@ add("C01",
                     all_pins_can_be_disconnected = False
                     break"""), "Wire.disconnect_pins_from|wire-pin|bulk-guard"),
 )
+
+add("C19",
+    Mutant("E5b remove_ports_from announces over the caller's iterable, filters by the snapshot (seeded C19-w3C)",
+           (D, "        for port in excluded_ports:\n            self._remove_port(port)", "        for port in ports:\n            self._remove_port(port)"),
+           "E5b|spydrnet/ir/definition.py:Definition.remove_ports_from|bulk definition-port"),
+)
+add("C02",
+    Mutant("M2 remove_ports_from unlinks over the caller's iterable, filters by the snapshot (seeded C02-w3C)",
+           (D, "        for port in excluded_ports:\n            self._remove_port(port)", "        for port in ports:\n            self._remove_port(port)"),
+           "M2|spydrnet/ir/definition.py:Definition.remove_ports_from|bulk definition-port"),
+    Mutant("M9 the membership assert of remove_pins_from is folded into the removal loop (seeded C02-w3B)",
+           (PT, """        assert all(isinstance(x, InnerPin) and x.port == self for x in exclude_pins), (
+            "All pins to remove must be " "InnerPins and belong to the port"
+        )
+        for pin in exclude_pins:
+            self._remove_pin(pin)""", """        for pin in exclude_pins:
+            assert isinstance(pin, InnerPin) and pin.port == self, "All pins to remove must be InnerPins and belong to the port"
+            self._remove_pin(pin)"""), "M9|spydrnet/ir/port.py:Port.remove_pins_from"),
+)
